@@ -1,7 +1,8 @@
 // Stand-ins (written for the verification harness, NOT engine code) for the two external libraries the
 // sliced statistics code calls: Apache commons-math3 (AbstractIntegerDistribution, RandomGenerator,
-// HypergeometricDistribution) and jdistlib (ChiSquare).  The hypergeometric stand-in is exact (BigInt
-// binomials, one final rounding); the chi-square tail is a regularised incomplete gamma (series /
+// HypergeometricDistribution) and jdistlib (ChiSquare).  The hypergeometric stand-in follows commons-math3's own
+// algorithm (saddle-point logProbability, probability = exp(log), cumulative sums of probabilities), so equal table
+// probabilities carry the library's last-bit noise; it is validated against exact values at 1e-12; the chi-square tail is a regularised incomplete gamma (series /
 // Lentz continued fraction, ~1e-14 relative).  ChiSquare records the last argument it was asked about so
 // that the driver can report the statistic the engine computed.
 package org.apache.commons.math3.random {
@@ -32,33 +33,25 @@ package org.apache.commons.math3.distribution {
     private val lo = math.max(0, sampleSize + numberOfSuccesses - populationSize)
     private val hi = math.min(numberOfSuccesses, sampleSize)
 
-    private def choose(n: Int, k0: Int): BigInt = {
-      val k = math.min(k0, n - k0)
-      var r = BigInt(1)
-      var i = 1
-      while (i <= k) { r = r * (n - k + i) / i; i += 1 }
-      r
-    }
-
-    // C(m,k) C(N-m,n-k) / C(N,n) = C(n,k) C(N-n,m-k) / C(N,m): use the form whose binomials stay small
-    private val w: Array[BigInt] =
-      if (sampleSize <= numberOfSuccesses)
-        (lo to hi).map(k => choose(numberOfSuccesses, k) * choose(populationSize - numberOfSuccesses, sampleSize - k)).toArray
-      else
-        (lo to hi).map(k => choose(sampleSize, k) * choose(populationSize - sampleSize, numberOfSuccesses - k)).toArray
-    private val total: BigInt = w.sum
-    private val mc = new java.math.MathContext(60)
-    private def ratio(num: BigInt): Double =
-      new java.math.BigDecimal(num.bigInteger).divide(new java.math.BigDecimal(total.bigInteger), mc).doubleValue()
-
-    override def probability(k: Int): Double = if (k < lo || k > hi) 0.0 else ratio(w(k - lo))
-    override def logProbability(k: Int): Double = if (k < lo || k > hi) Double.NegativeInfinity else math.log(probability(k))
-    // P(X <= k)
+    // Same algorithm as commons-math3 3.6.1 (Loader's saddle-point expansion): mathematically equal table probabilities
+    // come out with the library's characteristic last-bit differences, which the engine's code has to tolerate.
+    override def logProbability(x: Int): Double =
+      if (x < lo || x > hi) Double.NegativeInfinity
+      else {
+        val p = sampleSize.toDouble / populationSize.toDouble
+        val q = (populationSize - sampleSize).toDouble / populationSize.toDouble
+        val p1 = SaddlePoint.logBinomialProbability(x, numberOfSuccesses, p, q)
+        val p2 = SaddlePoint.logBinomialProbability(sampleSize - x, populationSize - numberOfSuccesses, p, q)
+        val p3 = SaddlePoint.logBinomialProbability(sampleSize, populationSize, p, q)
+        p1 + p2 - p3
+      }
+    override def probability(x: Int): Double = { val l = logProbability(x); if (l == Double.NegativeInfinity) 0.0 else math.exp(l) }
+    // P(X <= k): ascending sum of probability(), as commons-math3's innerCumulativeProbability(lo, k, +1)
     override def cumulativeProbability(k: Int): Double =
-      if (k < lo) 0.0 else if (k >= hi) 1.0 else ratio(w.take(k - lo + 1).sum)
-    // P(X >= k)  (commons-math3 semantics)
+      if (k < lo) 0.0 else if (k >= hi) 1.0 else { var r = probability(lo); var x = lo; while (x != k) { x += 1; r += probability(x) }; r }
+    // P(X >= k): descending sum from the top of the support, as innerCumulativeProbability(hi, k, -1)
     def upperCumulativeProbability(k: Int): Double =
-      if (k <= lo) 1.0 else if (k > hi) 0.0 else ratio(w.drop(k - lo).sum)
+      if (k <= lo) 1.0 else if (k > hi) 0.0 else { var r = probability(hi); var x = hi; while (x != k) { x -= 1; r += probability(x) }; r }
     override def getNumericalMean: Double = sampleSize.toDouble * numberOfSuccesses / populationSize
     override def getNumericalVariance: Double = {
       val n = populationSize.toDouble; val m = numberOfSuccesses.toDouble; val s = sampleSize.toDouble
@@ -67,6 +60,56 @@ package org.apache.commons.math3.distribution {
     override def getSupportLowerBound: Int = lo
     override def getSupportUpperBound: Int = hi
     override def isSupportConnected: Boolean = true
+  }
+}
+
+package org.apache.commons.math3.distribution {
+  // Catherine Loader (2000), "Fast and accurate computation of binomial probabilities", as coded in commons-math3
+  // SaddlePointExpansion (re-implemented for the harness).
+  object SaddlePoint {
+    private val HALF_LOG_2_PI = 0.5 * math.log(2 * math.Pi)
+    private val EXACT_STIRLING_ERRORS = Array(0.0, 1.534264097200273452913848e-1, 8.10614667953272582196702e-2,
+      5.48141210519176538961390e-2, 4.13406959554092940938221e-2, 3.316287351993628748511048e-2, 2.767792568499833914878929e-2,
+      2.374616365629749597132920e-2, 2.079067210376509311152277e-2, 1.848845053267318523077934e-2, 1.664469118982119216319487e-2,
+      1.513497322191737887351255e-2, 1.387612882307074799874573e-2, 1.281046524292022692424986e-2, 1.189670994589177009505572e-2,
+      1.110455975820691732662991e-2, 1.0411265261972096497478567e-2, 9.799416126158803298389475e-3, 9.255462182712732917728637e-3,
+      8.768700134139385462952823e-3, 8.330563433362871256469318e-3, 7.934114564314020547248100e-3, 7.573675487951840794972024e-3,
+      7.244554301320383179543912e-3, 6.942840107209529865664152e-3, 6.665247032707682442354394e-3, 6.408994188004207068439631e-3,
+      6.171712263039457647532867e-3, 5.951370112758847735624416e-3, 5.746216513010115682023589e-3, 5.554733551962801371038690e-3)
+
+    def getStirlingError(z: Double): Double =
+      if (z < 15.0) {
+        val z2 = 2.0 * z
+        if (math.floor(z2) == z2) EXACT_STIRLING_ERRORS(z2.toInt)
+        else net.sourceforge.jdistlib.ChiSquare.lgamma(z + 1.0) - (z + 0.5) * math.log(z) + z - HALF_LOG_2_PI
+      } else {
+        val z2 = z * z
+        (0.083333333333333333333 - (0.00277777777777777777778 - (0.00079365079365079365079365 -
+          (0.000595238095238095238095238 - 0.0008417508417508417508417508 / z2) / z2) / z2) / z2) / z
+      }
+
+    def getDeviancePart(x: Double, mu: Double): Double =
+      if (math.abs(x - mu) < 0.1 * (x + mu)) {
+        val d = x - mu
+        var v = d / (x + mu)
+        var s1 = v * d
+        var s = Double.NaN
+        var ej = 2.0 * x * v
+        v *= v
+        var j = 1
+        while (s1 != s) { s = s1; ej *= v; s1 = s + ej / ((j * 2) + 1); j += 1 }
+        s1
+      } else x * math.log(x / mu) + mu - x
+
+    def logBinomialProbability(x: Int, n: Int, p: Double, q: Double): Double =
+      if (n == 0) 0.0
+      else if (x == 0) { if (p < 0.1) -getDeviancePart(n, n * q) - n * p else n * math.log(q) }
+      else if (x == n) { if (q < 0.1) -getDeviancePart(n, n * p) - n * q else n * math.log(p) }
+      else {
+        val ret = getStirlingError(n) - getStirlingError(x) - getStirlingError(n - x) - getDeviancePart(x, n * p) - getDeviancePart(n - x, n * q)
+        val f = (2 * math.Pi * x * (n - x)) / n
+        -0.5 * math.log(f) + ret
+      }
   }
 }
 
